@@ -352,3 +352,155 @@ func ruleKeywordPreparationsIndependent(c *Ctx, rule string) {
 	}
 	c.R.Floor(rule, "stores into the side record in the local-checks function", n, 2)
 }
+
+func init() {
+	for _, pid := range []string{"C18", "C05"} {
+		pid := pid
+		Properties[pid].Rules = append(Properties[pid].Rules, Rule{pid + "/retry-result-decides", func(c *Ctx) { ruleRetryResultDecides(c, pid+"/retry-result-decides") }})
+	}
+	for _, pid := range []string{"C11", "C12", "C14", "C08"} {
+		pid := pid
+		Properties[pid].Rules = append(Properties[pid].Rules, Rule{pid + "/fields-to-the-last", func(c *Ctx) { ruleFieldsToTheLast(c, pid+"/fields-to-the-last") }})
+	}
+	for _, pid := range []string{"C05", "C14"} {
+		pid := pid
+		Properties[pid].Rules = append(Properties[pid].Rules, Rule{pid + "/exclusive-pairs-by-presence", func(c *Ctx) { ruleExclusivePairsByPresence(c, pid+"/exclusive-pairs-by-presence") }})
+	}
+}
+
+// Where a value is decoded a second time with UseNumber, the outcome of that second decode decides: its failure is
+// returned as an error and its success as the value. (A test hoisted into a boolean with the comparison inverted
+// returns the first error for every number the retry was made for.)
+func ruleRetryResultDecides(c *Ctx, rule string) {
+	n := 0
+	for _, fn := range c.Closure(rule, "UNM").Sorted() {
+		if !c.P.InPkg(fn) {
+			continue
+		}
+		uses := false
+		core.EachInstr(fn, func(i ssa.Instruction) {
+			if call, ok := i.(ssa.CallInstruction); ok && core.CalleeKey(call.Common()) == "encoding/json.Decoder.UseNumber" {
+				uses = true
+			}
+		})
+		if !uses {
+			continue
+		}
+		core.EachInstr(fn, func(i ssa.Instruction) {
+			call, ok := i.(*ssa.Call)
+			if !ok || core.CalleeKey(&call.Call) != "encoding/json.Decoder.Decode" || call.Referrers() == nil {
+				return
+			}
+			for _, b := range fn.Blocks {
+				ifi, ok := b.Instrs[len(b.Instrs)-1].(*ssa.If)
+				if !ok {
+					continue
+				}
+				cond, pol := ssa.Value(ifi.Cond), true
+				for {
+					if u, ok := cond.(*ssa.UnOp); ok && u.Op.String() == "!" {
+						cond, pol = u.X, !pol
+						continue
+					}
+					break
+				}
+				bo, ok := cond.(*ssa.BinOp)
+				if !ok || !isErrNilTest(bo) || (bo.X != ssa.Value(call) && bo.Y != ssa.Value(call)) {
+					continue
+				}
+				// successor taken when the decode failed
+				failedOnTrue := (bo.Op.String() == "!=") == pol
+				failing, succeeding := b.Succs[1], b.Succs[0]
+				if failedOnTrue {
+					failing, succeeding = b.Succs[0], b.Succs[1]
+				}
+				n++
+				c.R.Check(blockReturnsErrorDeepLocal(failing) && !blockReturnsErrorDeepLocal(succeeding), rule, fmt.Sprintf("%s:retry#%d", core.FuncName(fn), n), c.pos(ifi), "the failure of the retry is an error, its success the value", "after the retry with UseNumber the branches are the wrong way round: where the retry succeeded the first attempt's error is returned, so a document with a number beyond the float64 range inside an unknown keyword or an example is rejected (and where it failed, a value is returned)")
+			}
+		})
+	}
+	c.R.Floor(rule, "tests of a UseNumber retry", n, 1)
+}
+
+// A loop over the fields of a struct runs to the last one: NumField() is not reduced by a constant anywhere in
+// equality, the hasher or the property helpers. Zero such expressions are expected; each is reported.
+func ruleFieldsToTheLast(c *Ctx, rule string) {
+	n := 0
+	for _, fn := range c.P.Funcs {
+		if !c.P.InPkg(fn) {
+			continue
+		}
+		core.EachInstr(fn, func(i ssa.Instruction) {
+			bo, ok := i.(*ssa.BinOp)
+			if !ok || bo.Op.String() != "-" {
+				return
+			}
+			call, ok := bo.X.(*ssa.Call)
+			if !ok {
+				return
+			}
+			isNumField := core.CalleeKey(&call.Call) == "reflect.Value.NumField" || (call.Call.IsInvoke() && call.Call.Method.Name() == "NumField")
+			if !isNumField {
+				return
+			}
+			n++
+			c.R.Bad(rule, core.FuncName(fn)+":NumField-minus", c.pos(bo), "the number of fields of a struct is reduced before it bounds a loop: the last field is never compared (or hashed, or listed), so two struct values that differ only there are equal for enum, const and uniqueItems while their JSON encodings differ")
+		})
+	}
+	c.R.OK(rule, "field-loops-examined", "", fmt.Sprintf("%d subtractions from NumField()", n))
+}
+
+// The checks that refuse two keywords together (Items and ItemsArray, Type and Types ...) test for presence the way
+// MarshalJSON and the evaluator do: by nil (or the empty string), not by length. An empty but non-nil list is
+// present: `"items": []` beside a single-schema Items must be refused, or Validate and Marshal disagree about it.
+func ruleExclusivePairsByPresence(c *Ctx, rule string) {
+	n := 0
+	for _, fn := range c.Closure(rule, "MAR").Sorted() {
+		if !c.P.InPkg(fn) || fn.Signature.Results().Len() == 0 || !isErrorType(fn.Signature.Results().At(fn.Signature.Results().Len()-1).Type()) {
+			continue
+		}
+		for _, b := range fn.Blocks {
+			if len(b.Instrs) == 0 || !blockReturnsErrorDeepLocal(b) {
+				continue
+			}
+			if _, isRet := b.Instrs[len(b.Instrs)-1].(*ssa.Return); !isRet {
+				continue
+			}
+			// the condition that leads here: the test right before the block and the chain of `&&` operands before it
+			var gs []guardAtom
+			if len(b.Preds) != 1 {
+				continue
+			}
+			for q := b.Preds[0]; q != nil; {
+				ifi, ok := q.Instrs[len(q.Instrs)-1].(*ssa.If)
+				if !ok {
+					break
+				}
+				gs = append(gs, guardAtom{Cond: ifi.Cond, Pol: true, At: ifi})
+				if len(q.Preds) == 1 && q.Comment == "cond.true" {
+					q = q.Preds[0]
+					continue
+				}
+				break
+			}
+			fields := map[string]bool{}
+			byLen := ""
+			for _, g := range gs {
+				fs := c.schemaFieldsIn(g.Cond)
+				for f := range fs {
+					fields[f] = true
+				}
+				if len(fs) > 0 && usesLen(g.Cond, 4) {
+					byLen = c.pos(g.At)
+				}
+			}
+			if len(fields) != 2 {
+				continue
+			}
+			n++
+			ks := sortedKeys(fields)
+			c.R.Check(byLen == "", rule, fmt.Sprintf("%s:%s+%s", core.FuncName(fn), ks[0], ks[1]), c.pos(b.Instrs[0]), "the two keywords are tested for presence, not for length", "the refusal of "+ks[0]+" together with "+ks[1]+" tests a length (at "+byLen+"): an empty but non-nil list is present for MarshalJSON and for the evaluator, so a schema with both passes the check, Validate looks at one and Marshal writes the other, and the verdict changes across a round trip")
+		}
+	}
+	c.R.Floor(rule, "refusals of two keywords together", n, 2)
+}
